@@ -3,7 +3,7 @@
 
    Client: Model/HTTPClient.v (remotehttp.go, remotehttpindex.go); server: Model/HTTPServer.v
    (httphandler*.go, httpindexhandler.go, local.go, localindex.go); casync protocol:
-   Model/Protocol.v (protocol.go, protocolserver.go).  [rs : nat -> resp_ev] is an arbitrary
+   Model/ProtocolSession.v (protocol.go, protocolserver.go).  [rs : nat -> resp_ev] is an arbitrary
    script of what the client observes at attempt 0, 1, 2, ...: a status with a body, a
    transport error, or a body that breaks off.  zstd and the index codec are arbitrary
    functions with the round-trip law as an explicit premise; the digest H is arbitrary. *)
@@ -190,42 +190,55 @@ Theorem C14_message_roundtrip : forall m rest,
 Proof. intros m rest Ht Hb. apply message_roundtrip. split; assumption. Qed.
 Print Assumptions C14_message_roundtrip.
 
-(* protocol_missing_vs_chunk, whole session: while every requested chunk is present, every
-   reply carries exactly its data ... *)
-Theorem C14_session_all_present : forall H zcomp zdecomp,
+(* session_truthful (the code after "fix: protocol server keeps serving after answering a request
+   for a missing chunk"): on one session, EVERY request -- any number, any order -- is answered
+   CHUNK carrying exactly the chunk's data when the store has it and MISSING when it has not ... *)
+Theorem C14_session_truthful : forall H zcomp zdecomp,
   (forall x, zdecomp (zcomp x) = Some x) -> (forall x, zcomp x <> []) ->
   forall store data_of ids,
-  Forall (present H zcomp zdecomp store data_of) ids ->
-  Forall2 (is_data zdecomp data_of) ids (session H zcomp zdecomp store ids).
-Proof. exact session_all_present. Qed.
-Print Assumptions C14_session_all_present.
+  Forall (servable H zcomp zdecomp store data_of) ids ->
+  Forall2 (answered H zcomp zdecomp store data_of) ids (session H zcomp zdecomp store ids).
+Proof. exact session_truthful. Qed.
+Print Assumptions C14_session_truthful.
 
-(* ... the first missing chunk is reported as missing -- and, as ProtocolServer.Serve stands,
-   that ends the session: EVERY later request on it, for a present or for a missing chunk,
-   is answered with an error.  (See C14_session_truthful_refuted below.) *)
-Theorem C14_session_after_missing : forall H zcomp zdecomp,
+(* ... until a store FAILURE ends the session: the failing request and every later one are
+   reported as errors (never as missing, never as data) *)
+Theorem C14_session_until_failure : forall H zcomp zdecomp,
   (forall x, zdecomp (zcomp x) = Some x) -> (forall x, zcomp x <> []) ->
-  forall store data_of pre m post,
-  Forall (present H zcomp zdecomp store data_of) pre -> wf_id m -> store m = GMissing ->
+  forall store data_of pre f post,
+  Forall (servable H zcomp zdecomp store data_of) pre -> wf_id f -> store f = GFail ->
   exists rs,
-    session H zcomp zdecomp store (pre ++ m :: post) = rs ++ PMissing :: repeat PErr (length post) /\
-    Forall2 (is_data zdecomp data_of) pre rs.
-Proof. exact session_after_missing. Qed.
-Print Assumptions C14_session_after_missing.
+    session H zcomp zdecomp store (pre ++ f :: post) = rs ++ repeat PErr (S (length post)) /\
+    Forall2 (answered H zcomp zdecomp store data_of) pre rs.
+Proof. exact session_until_failure. Qed.
+Print Assumptions C14_session_until_failure.
 
 Theorem C14_session_store_failure : forall H zcomp zdecomp store i,
   wf_id i -> store i = GFail -> session H zcomp zdecomp store [i] = [PErr].
 Proof. exact session_store_failure. Qed.
 Print Assumptions C14_session_store_failure.
 
-(* The property "a missing object is reported as missing" for EVERY request of a session is
-   false for the model of the code as it is: the second of two missing chunks is an error. *)
-Definition session_truthful_statement : Prop :=
+(* The code BEFORE that fix ([session_prefix]: Serve returned after answering one MISSING):
+   the first missing chunk was reported as missing and EVERY later request on the session, for a
+   present or for a missing chunk, was answered with an error ... *)
+Theorem C14_session_prefix_after_missing : forall H zcomp zdecomp,
+  (forall x, zdecomp (zcomp x) = Some x) -> (forall x, zcomp x <> []) ->
+  forall store data_of pre m post,
+  Forall (present H zcomp zdecomp store data_of) pre -> wf_id m -> store m = GMissing ->
+  exists rs,
+    session_prefix H zcomp zdecomp store (pre ++ m :: post) = rs ++ PMissing :: repeat PErr (length post) /\
+    Forall2 (is_data zdecomp data_of) pre rs.
+Proof. exact session_prefix_after_missing. Qed.
+Print Assumptions C14_session_prefix_after_missing.
+
+(* ... so "a missing object is reported as missing" was false for it: the second of two
+   missing chunks was an error. *)
+Definition session_prefix_truthful_statement : Prop :=
   forall H zcomp zdecomp (store : id -> get_result) ids,
     Forall (fun i => wf_id i /\ store i = GMissing) ids ->
-    session H zcomp zdecomp store ids = map (fun _ => PMissing) ids.
+    session_prefix H zcomp zdecomp store ids = map (fun _ => PMissing) ids.
 
-Theorem C14_session_truthful_refuted : ~ session_truthful_statement.
+Theorem C14_session_truthful_refuted : ~ session_prefix_truthful_statement.
 Proof.
   intros St.
   specialize (St (fun _ => 0) (fun b => b) (fun b => Some b) (fun _ => GMissing) [1; 2]).
@@ -267,10 +280,10 @@ Example C14_example_retry :
   = ((ObjData [7], 3), (ObjErr, 2), (ObjMissing, 1), (ObjMissing, 2), (ObjErr, 1)).
 Proof. vm_compute. reflexivity. Qed.
 
-(* one protocol session: present, missing, present -> data, missing, error *)
+(* one protocol session: present, missing, present -> data, missing, data (before the fix: data, missing, error) *)
 Example C14_example_session :
   let store := fun i : id => if i =? 5 then GChunk {| ch_data := [5]; ch_storage := []; ch_conv := []; ch_id := 5; ch_idcalc := true |}
                              else GMissing in
   map (fun r => match r with PData c => 1 | PMissing => 2 | PErr => 3 end)
-      (session ex_H ex_zcomp ex_zdecomp store [5; 6; 5]) = [1; 2; 3].
+      (session ex_H ex_zcomp ex_zdecomp store [5; 6; 5] ++ session_prefix ex_H ex_zcomp ex_zdecomp store [5; 6; 5]) = [1; 2; 1; 1; 2; 3].
 Proof. vm_compute. reflexivity. Qed.
